@@ -41,37 +41,48 @@ theorem recipient_table_matches : recipientCases = [
       "pkt.ReceiverTicket", "pkt.ProviderTicket"⟩,
     ⟨true, [], false, none, [], "", ""⟩] := by decide
 
-/-- shape of the two run loops and of `SidecarAcceptor.Start`'s resume rules. `…FinReturns = true` is the
-repaired rule: the finalization branch returns from the loop. -/
+/-- The semantic essentials of the two run loops, of `SidecarAcceptor.Start`'s resume rules and of the ticket store, as
+regenerated from the source. The extractor canonicalises before it emits (operand order of comparisons, once-assigned
+locals and parameters replaced by their definition / position, conjunctions and mutually exclusive guards as sorted
+sets, if-chains / switches / same-package helpers EVALUATED over the state enum), so behaviour-preserving rewrites
+yield the same facts:
+* the finalization branch returns from the loop (the repaired rule), persists FIRST and then either notifies the other
+  side or deletes the mailbox; the notification guard;
+* the provider's stateUpdateLoop stops on: no state change / expecting / canceled (a set);
+* the simulated starting packets; the readers' retry branch only re-creates the mailbox and can never end the reader;
+* `TicketExecuted` stops the negotiator;
+* resume: a stored "offered" provider ticket resumes as "created", everything else (and every recipient ticket) as
+  stored; only non-terminal auto tickets; both tickets of the starting packet are the stored ticket;
+* `removeBidTemplate` tolerates a template that is already gone. -/
 theorem loops_match :
     providerFinReturns = true ∧ receiverFinReturns = true ∧ ticketExecutedStops = true ∧
-    providerFinCalls = ["Driver.UpdateSidecar", "MailBox.SendSidecarPkt", "MailBox.DelAcctMailbox"] ∧
-    receiverFinCalls = ["Driver.UpdateSidecar", "MailBox.SendSidecarPkt", "MailBox.DelSidecarMailbox"] ∧
-    providerFinNotifyCond =
-      "!fin.otherSide && fin.state == sidecar.StateCanceled && a.CurrentState() >= sidecar.StateRegistered" ∧
-    receiverFinNotifyCond = "!fin.otherSide && fin.state == sidecar.StateCanceled" ∧
-    providerLoopBreaks = ["priorState == newPktState.CurrentState",
-      "newPktState.CurrentState == sidecar.StateExpectingChannel",
-      "newPktState.CurrentState == sidecar.StateCanceled"] ∧
+    providerFinFirstCall = "Driver.UpdateSidecar" ∧ receiverFinFirstCall = "Driver.UpdateSidecar" ∧
+    providerFinOtherCalls = ["MailBox.DelAcctMailbox", "MailBox.SendSidecarPkt"] ∧
+    receiverFinOtherCalls = ["MailBox.DelSidecarMailbox", "MailBox.SendSidecarPkt"] ∧
+    providerFinNotifyCond = ["!<-a.ticketFinalized.otherSide", "<-a.ticketFinalized.state == sidecar.StateCanceled",
+      "a.CurrentState() >= sidecar.StateRegistered"] ∧
+    receiverFinNotifyCond = ["!<-a.ticketFinalized.otherSide", "<-a.ticketFinalized.state == sidecar.StateCanceled"] ∧
+    providerLoopBreaks =
+      ["a.stateStepProvider()#0.CurrentState == sidecar.State(atomic.LoadUint32(&a.currentState))",
+       "a.stateStepProvider()#0.CurrentState == sidecar.StateCanceled",
+       "a.stateStepProvider()#0.CurrentState == sidecar.StateExpectingChannel"] ∧
     receiverLoopBreaks = [] ∧
-    providerStartPacket = "if startingPkt.CurrentState == sidecar.StateCreated then startingPkt.ReceiverTicket" ∧
-    receiverStartPacket = "startingPkt.ProviderTicket" ∧
-    -- after a failed receive the readers back off, re-create the mailbox IGNORING the result and read again:
-    -- a receive error (`recvErr`) therefore changes nothing in the model
-    providerReaderRetry = ["_ = MailBox.InitAcctMailbox", "continue"] ∧
-    receiverReaderRetry = ["_ = MailBox.InitSidecarMailbox", "continue"] ∧
-    resumeRemap = [(sOffered, sCreated)] ∧
-    resumeCond = "ticket.Offer.Auto && !ticket.State.IsTerminal()" ∧
-    resumePackets = ["provider=false;CurrentState=ticket.State,ReceiverTicket=ticket,ProviderTicket=ticket",
-      "provider=true;CurrentState=state,ReceiverTicket=ticket,ProviderTicket=ticket"] := by decide
+    providerStartGuard = ["$2.CurrentState == sidecar.StateCreated"] ∧
+    providerStartPacket = "$2.ReceiverTicket" ∧
+    receiverStartGuard = [] ∧ receiverStartPacket = "$2.ProviderTicket" ∧
+    providerReaderRetryCalls = ["MailBox.InitAcctMailbox"] ∧ providerReaderRetryCanEnd = false ∧
+    receiverReaderRetryCalls = ["MailBox.InitSidecarMailbox"] ∧ receiverReaderRetryCanEnd = false ∧
+    resumeRemap = [(sOffered, sCreated)] ∧ recipientResumeRemap = [] ∧
+    resumeCond = ["!$ticket.State.IsTerminal()", "$ticket.Offer.Auto"] ∧
+    resumePackets = ["provider=false;ProviderTicket=$ticket,ReceiverTicket=$ticket",
+      "provider=true;ProviderTicket=$ticket,ReceiverTicket=$ticket"] := by decide
 
-/-- `clientdb.removeBidTemplate` / `DB.UpdateSidecar` have the shape `removeBidTemplate`/`updateSidecarDB` model: in
-particular a template that is already gone (`ErrBucketNotFound`) is tolerated. -/
+/-- `clientdb.removeBidTemplate` / `DB.UpdateSidecar` as `removeBidTemplate`/`updateSidecarDB` model them: the two
+early-nil guards, the terminal-state guard, and a template that is already gone (`ErrBucketNotFound`) is tolerated. -/
 theorem removeBidTemplate_matches :
-    removeBidTemplateShape = ["bidBucket := sidecarBucket.Bucket", "if bidBucket == nil return nil",
-      "if ticketNonce == order.ZeroNonce return nil", "err := bidBucket.DeleteBucket",
-      "if err != bbolt.ErrBucketNotFound return err", "return nil"] ∧
-    updateSidecarTemplateGuard = "ticket.State.IsTerminal() && ticket.Order != nil" := by decide
+    removeBidTemplateNilGuards = ["$1.Bucket(bidTemplateBucket) == nil", "$2 == order.ZeroNonce"] ∧
+    removeBidTemplateToleratesMissing = true ∧
+    updateSidecarTemplateGuard = ["$1.Order != nil", "$1.State.IsTerminal()"] := by decide
 
 theorem finReturns_true : finReturns = true := by decide
 
